@@ -9,7 +9,7 @@ from collections import Counter
 from . import enc_common as E
 import vlib
 
-THEOREM_FILES = ['C02', 'C06']
+THEOREM_FILES = ['C02', 'C02b', 'C06']
 ASSUMPTIONS = ['the reference placement is computed by the generator (sequential placement, zero gaps); instruction words come from the Lean ISA spec, data bytes from plain little-endian arithmetic',
                'labels are kept below 65536 so that `.dw <label>` shows their full value']
 DEVS = [None, 'ATmega8', 'ATmega328P', 'ATtiny20', 'ATmega2560', 'ATtiny13']
